@@ -132,11 +132,12 @@ def wvar (p : List (Rat × Rat)) : Rat :=
 def weightWhere (pr : Rat → Bool) (p : List (Rat × Rat)) : Rat :=
   p.foldl (fun s q => if pr q.1 then s + q.2 else s) 0
 
-/-- `m` leaves at most half of the total weight strictly on either side (float allowance 1e-9) -/
-def halfWeights (p : List (Rat × Rat)) (m : Rat) : Bool :=
+/-- `m` leaves at most half of the total weight strictly on either side (float allowance: 1e-9 on
+    the weights, `delta` on the values) -/
+def halfWeights (p : List (Rat × Rat)) (m : Rat) (delta : Rat := 0) : Bool :=
   let tot := weightWhere (fun _ => true) p
   let half := tot / 2 * (1 + tolQ)
-  weightWhere (fun v => decide (v < m)) p ≤ half && weightWhere (fun v => decide (m < v)) p ≤ half
+  weightWhere (fun v => decide (v < m - delta)) p ≤ half && weightWhere (fun v => decide (m + delta < v)) p ≤ half
 
 end Spec
 
@@ -298,7 +299,7 @@ def handleDescriptives (op : String) (inp : Json) (impl : Option Json) : R (Opti
              (if name == "weighted_median" && vals.length ≥ 1 then
                 let tot := (p.map (·.2)).foldl (· + ·) 0
                 let wpos := p.all (fun q => decide (0 ≤ q.2)) && decide (0 < tot)
-                (if !wpos || Spec.halfWeights p m then [] else ["wmedian_half_weights"]) ++
+                (if !wpos || Spec.halfWeights p m (tolQ * max 1 mag) then [] else ["wmedian_half_weights"]) ++
                 (if wpos && p.all (fun q => q.2 == (p.headD (0, 0)).2) then
                    (if closeQ m (Spec.median vals) mag then [] else ["wmedian_equal_weights_is_median"])
                  else [])
@@ -418,7 +419,7 @@ def handleDescriptives (op : String) (inp : Json) (impl : Option Json) : R (Opti
                  | "wmad" =>
                    (match vmed with
                     | some m =>
-                      if !wpos || Spec.halfWeights (p.map (fun q => (absQ (q.1 - m), q.2))) (s / (7413 / 5000)) then []
+                      if !wpos || Spec.halfWeights (p.map (fun q => (absQ (q.1 - m), q.2))) (s / (7413 / 5000)) (tolQ * max 1 mag) then []
                       else ["wmad_published"]
                     | none => [])
                  | _ => [])
